@@ -2,10 +2,17 @@
 import json, os
 from . import ast as A, tracer, values as V, gen, pipeline, tlc
 
+REALIZED = {"ok": 0, "failed": 0, "examples": []}
 def realizable(prog):
+    "the real construct object for a program, or None when the library refuses to construct it (counted: a check whose programs mostly fail is vacuous)"
     try:
-        return A.realize(prog)
-    except Exception:
+        con = A.realize(prog)
+        REALIZED["ok"] += 1
+        return con
+    except Exception as e:
+        REALIZED["failed"] += 1
+        if len(REALIZED["examples"]) < 3:
+            REALIZED["examples"].append("%s: %s" % (prog.get("k"), repr(e)[:120]))
         return None
 
 class Campaign:
